@@ -120,7 +120,7 @@ func cmdFn(args []string) {
 		os.MkdirAll(*dump, 0o755)
 		for _, o := range rep.Obs {
 			if o.Result != nil && o.Result.Status != "unsat" {
-				os.WriteFile(fmt.Sprintf("%s/%s_p%d.smt2", *dump, sanitize(o.Name), o.PathID), []byte(obligationScript(o, false, false)), 0o644)
+				os.WriteFile(fmt.Sprintf("%s/%s_p%d.smt2", *dump, sanitize(o.Name), o.PathID), []byte(obligationScript(o, true, false)), 0o644)
 			}
 		}
 	}
